@@ -1,4 +1,5 @@
 import TracklibVerif.Model.Proj
+import TracklibVerif.Model.ProjTrack
 import TracklibVerif.Drv.Util
 /-! Driver handler for C20 (projection on a segment / polyline), `Float` instance of `Model/Proj`.
 Floats are IEEE bit patterns. Commands:
@@ -10,11 +11,18 @@ Floats are IEEE bit patterns. Commands:
   polyxy np <X list> <Y list> x y → as `poly`, the two sequences as given (any lengths) | `err index`
   map3 <X> <Y> <Z> x y z        → `ok xp yp zp d i`       (mapOnTrack with a 3D coordinate on a 3D track)
   mapt3 <X> <Y> <Z> <QX> <QY> <QZ> → `ok xp,yp,zp,d,i;…`  (mapOnTrack with a 3D track of queries)
+  mapf <names> <cols> <QX> <QY> <QZ> <QT> <refs> → `ok call …` | `err kind call …`: chained `mapOnTrack(track, track)` on track
+       OBJECTS (`Model/ProjTrack.lean` `mapChain`): the track of queries with its feature table (`names`: `,`-list of
+       feature names, `cols`: its columns, `;` between columns) and time stamps `QT`, snapped on `refs[0]`, the output track
+       on `refs[1]`, … (`refs`: `|` between tracks, each `X;Y;Z`). One `call` per completed call:
+       `names/ts/rows` = the output track's feature names, time stamps, and rows `x,y,z,dist,edge` (`;` between rows),
+       `dist` / `edge` read from the output's feature table; `err kind` = the exception that stopped the chain.
 The `proj_polyligne` requests (`poly`, `polyxy`) are answered with the SENTINEL-FAITHFUL forms of the model
 (`projPolyligneS`, `projPolyligneXYS`, sentinel `inf = 1.0 / 0.0`, the double Python reads `1e400` as): the test is
 `dist < inf` as in the code, so an input whose distances are all `inf`/NaN answers `err unbound` where Python raises
-`UnboundLocalError` (`Tie/C20.lean` `tie_proj_polyligne_exact`). The `mapOnTrack` requests (`map`, `mapt`, `map3`, `mapt3`)
-still go through the `none`-state forms (`projOnTrack`, …), equal to the former whenever a distance met is finite. -/
+`UnboundLocalError` (`Tie/C20.lean` `tie_proj_polyligne_exact`). The `mapOnTrack` requests (`map`, `mapt`, `map3`, `mapt3`,
+`mapf`) still go through the `none`-state forms (`projOnTrack`, …), equal to the former whenever a distance met is finite
+(the harness sends no `mapOnTrack` request with a non-finite / overflowing coordinate). -/
 namespace TV.Drv.C20
 open TV.Proj TV.Drv
 
@@ -47,8 +55,63 @@ def zip3? (xs ys zs : List Float) : Option (List (Float × Float × Float)) :=
 def showRow3 (sep : String) (r : (Float × Float × Float) × Float × Nat) : String :=
   sep.intercalate [showFloat r.1.1, showFloat r.1.2.1, showFloat r.1.2.2, showFloat r.2.1, toString r.2.2]
 
+open TV.ProjTrack in
+def showErrT : ErrT → String
+  | .proj e => showErrX e
+  | .feat .empty => "err af"
+  | .feat .index => "err index"
+  | .feat _ => "err feat"
+
+/-- columns (one list per feature) → the `features` lists of the `n` observations -/
+def rowsOfCols (n : Nat) (cols : List (List Float)) : Option (List (List Float)) :=
+  (List.range n).mapM (fun j => cols.mapM (fun c => c[j]?))
+
+/-- one track `X;Y;Z` of the `refs` token, without analytical feature -/
+def refTrack? (s : String) : Option (TV.Features.St Float) :=
+  match (splitTok s ';').mapM floatList? with
+  | some [xs, ys, zs] =>
+    if xs.length == ys.length && ys.length == zs.length then
+      some { dico := [], rows := xs.map (fun _ => []), xs := xs, ys := ys, zs := zs, ts := xs.map (fun _ => 0.0) }
+    else none
+  | _ => none
+
+open TV.ProjTrack in
+/-- an output track as `names/ts/rows`, `dist` and `edge` read from its feature table -/
+def showCall (t : TV.Features.St Float) : Option String :=
+  match column t "dist", column t "edge" with
+  | some ds, some es =>
+    if ds.length == t.xs.length && es.length == t.xs.length && t.ys.length == t.xs.length && t.zs.length == t.xs.length then
+      let rows := (t.xs.zip (t.ys.zip (t.zs.zip (ds.zip es)))).map
+        (fun r => ",".intercalate [showFloat r.1, showFloat r.2.1, showFloat r.2.2.1, showFloat r.2.2.2.1, showFloat r.2.2.2.2])
+      some ("/".intercalate [joinWith "," (t.dico.map (fun p => p.1)), showList showFloat t.ts, joinWith ";" rows])
+    else none
+  | _, _ => none
+
+open TV.ProjTrack in
+def handleMapf (names cols qx qy qz qt refs : String) : String :=
+  match floatListList? cols, floatList? qx, floatList? qy, floatList? qz, floatList? qt, (splitTok refs '|').mapM refTrack? with
+  | some cols, some qx, some qy, some qz, some qt, some refs =>
+    let ns := splitTok names ','
+    if ns.length != cols.length || qy.length != qx.length || qz.length != qx.length || qt.length != qx.length
+        || cols.any (fun c => c.length != qx.length) then "bad-request" else
+    match rowsOfCols qx.length cols with
+    | none => "bad-request"
+    | some rows =>
+      let q : TV.Features.St Float :=
+        { dico := ns.zip (List.range ns.length), rows := rows, xs := qx, ys := qy, zs := qz, ts := qt }
+      let res := mapChain Float.sqrt eps (fun n => Float.ofNat n) refs q
+      match res.1.mapM showCall with
+      | none => "bad-model"
+      | some calls =>
+        let head := match res.2 with
+          | none => "ok"
+          | some e => showErrT e
+        " ".intercalate (head :: calls)
+  | _, _, _, _, _, _ => "bad-request"
+
 def handle (cmd : String) (args : List String) : String :=
   match cmd, args with
+  | "mapf", [names, cols, qx, qy, qz, qt, refs] => handleMapf names cols qx qy qz qt refs
   | "seg", [a, b, c, d, e, f] =>
     match [a, b, c, d, e, f].mapM float? with
     | some [x1, y1, x2, y2, x, y] =>
